@@ -194,6 +194,9 @@ class ilu_solve< backend::builtin<value_type, col_type, ptr_type> > {
             return b;
         }
 
+#ifdef AMGCL_VERIF
+    friend struct ::amgcl::verif::access;
+#endif
     private:
         static int num_threads() {
 #ifdef _OPENMP
@@ -395,6 +398,9 @@ class ilu_solve< backend::builtin<value_type, col_type, ptr_type> > {
 
                     for(const task &t : tasks[tid]) {
                         for(ptrdiff_t r = t.beg; r < t.end; ++r) {
+#ifdef AMGCL_VERIF
+                            AMGCL_VERIF_POINT(lower ? "ilu.lower.row" : "ilu.upper.row", r);
+#endif
                             ptrdiff_t i   = ord[tid][r];
                             ptrdiff_t beg = ptr[tid][r];
                             ptrdiff_t end = ptr[tid][r+1];
@@ -411,6 +417,9 @@ class ilu_solve< backend::builtin<value_type, col_type, ptr_type> > {
 
                         // each task corresponds to a level, so we need
                         // to synchronize across threads at this point:
+#ifdef AMGCL_VERIF
+                        AMGCL_VERIF_BARRIER(lower ? "ilu.lower.level" : "ilu.upper.level");
+#endif
 #pragma omp barrier
                         ;
                     }
